@@ -1,6 +1,7 @@
 /-
 Line-protocol driver for C14 (one request per line, one answer per line).
 
+  H <hex>            header of the first item (rlp.Split)   -> ok <isList> <payload length> <header length> | err <e>
   U <hex>            untyped strict decode           -> ok <item> <re-encoding hex> <weight> | err <e>
   D <schema> <hex>   typed decode with a generated schema
                                                      -> ok <val> <re-encoding hex | none> | err <e> | bad-schema
@@ -62,6 +63,15 @@ def step (_ : Unit) (line : String) : Unit × String :=
       match Rlp.decode bs with
       | .error e => ((), s!"err {repr e}")
       | .ok i => ((), s!"ok {i.render} {hexOfList (Rlp.encode i)} {weight i}")
+  | ["H", hex] =>
+    -- rlp.Split: header of the first item, with the "content fits" check that decodeItem applies
+    match bytesOfHex? hex with
+    | none => ((), "bad-op")
+    | some bs =>
+      match Rlp.decodeHeader bs with
+      | .error e => ((), s!"err {repr e}")
+      | .ok (isList, n, h) =>
+        if (bs.drop h).length < n then ((), "err tooLarge") else ((), s!"ok {isList} {n} {h}")
   | ["D", name, hex] =>
     match lookup name, bytesOfHex? hex with
     | some ty, some bs =>
